@@ -1682,6 +1682,7 @@ namespace c14
             const double dubMin = std::min(dubAB, dubBA);
             if (std::max(R, R2) > std::min(L, Lr) + tol && std::max(R, R2) <= dubMin + tol) sink.count("c14_rs_above_snapped_dubins_only_stat");
             const bool rsDefect = R > dubMin + tol || R2 > dubMin + tol;
+            if (rsDefect) sink.count("c14_rs_exceeds_dubins_stat_direct_" + x.mode);
             if (rsDefect)
                 sink.viol("C14:rs-exceeds-dubins:ReedsSheppStateSpace", witness(x, "ReedsShepp").num("reeds_shepp_ab", R).num("reeds_shepp_ba", R2)
                                                                              .num("dubins_ab", L).num("dubins_ba", Lr).num("dubins_ab_certified", dubAB)
@@ -1727,6 +1728,7 @@ namespace c14
                             if (dp > std::min(d1, d2) + tl)
                             {
                                 // same root cause as the direct clause: the prefix point is a pose Reeds-Shepp over-estimates
+                                sink.count("c14_rs_exceeds_dubins_stat_prefix_point_" + x.mode);
                                 sink.viol("C14:rs-exceeds-dubins:ReedsSheppStateSpace",
                                           witness(x, "ReedsShepp").str("via", "prefix point").num("t", t).arr("p", {x.p->getX(), x.p->getY(), x.p->getYaw()})
                                               .num("reeds_shepp_a_p", dp).num("dubins_a_p", d1).num("dubins_p_a", d2));
